@@ -17,10 +17,12 @@
      clampq q              := q clamped into [-1, 1]  (_clamp_speed on a number)
      events: MLvl speed applied mode - one per completed _apply_speed/stop/coast; MSleep q - one
              per call of the package-level sleep;  sleeps / lvl_speeds / lvl_applied project them
+     mtrace ops m          := all events of the history ops from m, in order
+     ev_ok inv e / ev_sound e := the statement's clauses read on one event (Proofs/DCMotorP.v)
      chain R l             := adjacent elements of l are related by R;  qge x y := y <= x
    Floats are exact rationals; == is equality of rationals. *)
 From Coq Require Import ZArith QArith List Bool.
-From RV Require Import Base.Wire Base.NumM Gen.C19Motor Host.DCMotor Proofs.NumMP Proofs.DCMotorP.
+From RV Require Import Base.Wire Base.NumM Base.XFloat Gen.C19Motor Host.DCMotor Host.ActuatorsX Proofs.NumMP Proofs.DCMotorP Proofs.ActuatorsXP.
 Import ListNotations.
 Local Open Scope Q_scope.
 
@@ -193,6 +195,15 @@ Theorem C19_ramp : forall m t d qt qd,
 Proof. exact DCMotorP.ramp_exact. Qed.
 Print Assumptions C19_ramp.
 
+(* "Linearly ramp": step k of a ramp is start + (target - start) * k / 20, exactly (the clamp inside
+   set_speed never bites, start and target being in [-1, 1]) *)
+Theorem C19_ramp_linear : forall m t d qt qd,
+  motor_inv m -> qof t = Some qt -> qof d = Some qd -> 0 <= qd ->
+  Forall2 Qeq (lvl_speeds (mevents (mstep m (MRamp t d))))
+              (map (fun k => speed m + (clampq qt - speed m) * inject_Z k / 20) (zsteps 20)).
+Proof. exact DCMotorP.ramp_linear. Qed.
+Print Assumptions C19_ramp_linear.
+
 (* run_for(d, v) from EVERY state, for every numeric speed and duration >= 0: applies the
    clamped speed, sleeps exactly once, exactly d, then brakes *)
 Theorem C19_run_for : forall m d v qd qv,
@@ -208,6 +219,103 @@ Theorem C19_run_for : forall m d v qd qv,
   inverted m' = inverted m /\ pins m' = pins m.
 Proof. exact DCMotorP.run_for_exact. Qed.
 Print Assumptions C19_run_for.
+
+(* every history sleeps exactly the sum of the durations of its ramp()/run_for() calls that do not
+   raise ([op_duration op] = duration_ms if [raises op] = None, else 0 - a function of the call alone) *)
+Theorem C19_motor_history_sleep : forall ops m,
+  qsum (sleeps (mtrace ops m)) == qsum (map op_duration ops).
+Proof. exact DCMotorP.trace_sleep. Qed.
+Print Assumptions C19_motor_history_sleep.
+
+Theorem C19_motor_step_sleep : forall m op, qsum (sleeps (mevents (mstep m op))) == op_duration op.
+Proof. exact DCMotorP.step_sleep. Qed.
+Print Assumptions C19_motor_step_sleep.
+
+(* every level event of every call from an invariant state obeys the statement (|speed| <= 1,
+   applied = speed negated under the direction flag in force after the call, drive iff applied <> 0)
+   - in particular each of the 20 intermediate steps of a ramp - and no sleep is negative *)
+Theorem C19_motor_step_events : forall m op,
+  motor_inv m -> Forall (ev_ok (inverted (mstate (mstep m op)))) (mevents (mstep m op)).
+Proof. exact DCMotorP.step_ev. Qed.
+Print Assumptions C19_motor_step_events.
+
+(* ... hence everything any history emits after any history *)
+Theorem C19_motor_history_events : forall i1 i2 en m0 pre ops,
+  motor_ctor i1 i2 en = inl m0 -> Forall ev_sound (mtrace ops (mrun pre m0)).
+Proof. exact DCMotorP.trace_ev_reachable. Qed.
+Print Assumptions C19_motor_history_events.
+
+(* ====================================================================== *)
+(* IEEE specials (findings F-C19-motor-nan-speed, F-C19-motor-nonfinite-duration); *)
+(* model of the affected validations over floats with specials: Host/ActuatorsX.v  *)
+(* ====================================================================== *)
+
+(* REFUTED: |speed| <= 1 for every argument - _clamp_speed returns NaN for NaN (both of its
+   comparisons are False).  Witness: set_speed(float('nan')). *)
+Theorem C19_motor_speed_bound_nan_refuted : exists x, ~ in_unit (xclamp x).
+Proof. exact ActuatorsXP.xclamp_nan_refuted. Qed.
+Print Assumptions C19_motor_speed_bound_nan_refuted.
+
+(* PARTIAL (guard: the speed argument is not NaN; +-inf are fine): the clamped speed is in [-1, 1] *)
+Theorem C19_motor_speed_bound_partial : forall x, xnan x = false -> in_unit (xclamp x).
+Proof. exact ActuatorsXP.xclamp_partial. Qed.
+Print Assumptions C19_motor_speed_bound_partial.
+
+(* on finite floats the model with specials is the model used everywhere else *)
+Theorem C19_motor_clamp_agrees : forall q, xclamp (XFin q) = XFin (clampq q).
+Proof. exact ActuatorsXP.xclamp_finite. Qed.
+Print Assumptions C19_motor_clamp_agrees.
+
+(* REFUTED: "a call that raises for an invalid scalar argument leaves the object as it was" -
+   run_for/ramp only test duration_ms < 0, which NaN and +inf pass; the sleep then raises after
+   the speed has been applied and stop() never runs.
+   Witnesses: run_for(float('nan'), 0.5) and ramp(0.5, float('inf')) on a fresh motor. *)
+Theorem C19_run_for_failed_call_atomic_refuted :
+  exists m d v m' e k, run_for_x m d v = (m', e, XRaised k) /\ m' <> m.
+Proof. exact ActuatorsXP.run_for_nonatomic_refuted. Qed.
+Print Assumptions C19_run_for_failed_call_atomic_refuted.
+
+Theorem C19_ramp_failed_call_atomic_refuted :
+  exists m t d m' e k, ramp_x m t d = (m', e, XRaised k) /\ m' <> m.
+Proof. exact ActuatorsXP.ramp_nonatomic_refuted. Qed.
+Print Assumptions C19_ramp_failed_call_atomic_refuted.
+
+(* PARTIAL (guard: the duration is neither NaN nor +inf): failing run_for/ramp calls are atomic *)
+Theorem C19_run_for_failed_call_atomic_partial : forall m d v m' e k,
+  d <> XNaN -> d <> XPInf -> run_for_x m d v = (m', e, XRaised k) -> m' = m /\ e = [].
+Proof. exact ActuatorsXP.run_for_atomic_partial. Qed.
+Print Assumptions C19_run_for_failed_call_atomic_partial.
+
+Theorem C19_ramp_failed_call_atomic_partial : forall m t d m' e k,
+  d <> XNaN -> d <> XPInf -> ramp_x m t d = (m', e, XRaised k) -> m' = m /\ e = [].
+Proof. exact ActuatorsXP.ramp_atomic_partial. Qed.
+Print Assumptions C19_ramp_failed_call_atomic_partial.
+
+(* on finite durations the calls with specials are the calls of the finite model *)
+Theorem C19_run_for_x_agrees : forall m q v,
+  run_for_x m (XFin q) v =
+  (mstate (mstep m (MRunFor (PF q) v)), mevents (mstep m (MRunFor (PF q) v)), xres_of (mresult (mstep m (MRunFor (PF q) v)))).
+Proof. exact ActuatorsXP.run_for_x_finite. Qed.
+Print Assumptions C19_run_for_x_agrees.
+
+Theorem C19_ramp_x_agrees : forall m t q,
+  ramp_x m t (XFin q) =
+  (mstate (mstep m (MRamp t (PF q))), mevents (mstep m (MRamp t (PF q))), xres_of (mresult (mstep m (MRamp t (PF q))))).
+Proof. exact ActuatorsXP.ramp_x_finite. Qed.
+Print Assumptions C19_ramp_x_agrees.
+
+Example C19_motor_specials_nonvacuous :
+  xclamp XNaN = XNaN /\ xclamp XPInf = XFin 1 /\ xclamp XNInf = XFin (-(1)) /\
+  run_for_x m_zero XNaN (PF (1 # 2)) = (m_half, [MLvl (1 # 2) (1 # 2) Drive], XRaised XValueError) /\
+  run_for_x m_zero XPInf (PF (1 # 2)) = (m_half, [MLvl (1 # 2) (1 # 2) Drive], XRaised XOverflowError) /\
+  run_for_x m_zero XNInf (PF (1 # 2)) = (m_zero, [], XRaised XValueError) /\
+  run_for_x m_zero XNaN PO = (m_zero, [], XRaised XTypeError) /\
+  ramp_x m_zero (PF (1 # 2)) XPInf =
+    (mkMotor (PI 2, PI 3, PI 5) (1 # 40) false Drive (1 # 40) LastOther, [MLvl (1 # 40) (1 # 40) Drive], XRaised XOverflowError) /\
+  sleeps (snd (fst (ramp_x m_zero (PF (1 # 2)) XNaN))) = [] /\
+  fst (fst (ramp_x m_zero (PF (1 # 2)) XNaN)) = m_half.
+Proof. vm_compute. repeat split. Qed.
+Print Assumptions C19_motor_specials_nonvacuous.
 
 (* ====================================================================== *)
 (* non-vacuity: the hypotheses above are satisfiable by non-trivial states *)
@@ -273,3 +381,10 @@ Example C19_motor_history_nonvacuous :
   mrun [MRunFor (PI 0) (PI 0); MRamp (PI 0) (PI 0)] m_init = mkMotor (PI 2, PI 3, PI 5) 0 false Coast 0 LastOther.
 Proof. vm_compute. repeat split. Qed.
 Print Assumptions C19_motor_history_nonvacuous.
+
+Example C19_motor_history_sleep_nonvacuous :
+  let ops := [MRamp (PI 1) (PI 100); MInvert; MRunFor (PF (5 # 2)) (PI 1); MRunFor (PI 20) PO; MRamp (PI 1) (PI (-1)); MStop] in
+  map op_duration ops = [100 # 1; 0; 5 # 2; 0; 0; 0] /\
+  sleeps (mtrace ops m_init) = repeat (100 / 20) 20 ++ [5 # 2].
+Proof. vm_compute. split; reflexivity. Qed.
+Print Assumptions C19_motor_history_sleep_nonvacuous.
